@@ -72,3 +72,10 @@ Example cache_exempt :
   durableb [Mkdir (ex_cal ++ [Cache]); Create (ex_cal ++ [Cache; Safe 5]); Write (ex_cal ++ [Cache; Safe 5]) 9;
             Rename (ex_cal ++ [Cache; Safe 5]) (ex_cal ++ [Cache; Safe 6])] = true.
 Proof. reflexivity. Qed.
+
+(* the directory fsync of the PUT (7th system call) or the file fsync (4th) fails: the upload raises ValueError *)
+Example ex_upload_fsync_fails :
+  snd (machine_run (fail_at 6 EIO) (unit_prog ex_lay (UUpload ex_cal (Safe 5) 9 [])) (start ex_fs)) = OExn EVal
+  /\ snd (machine_run (fail_at 3 ENOSPC) (unit_prog ex_lay (UUpload ex_cal (Safe 5) 9 [])) (start ex_fs)) = OExn EVal
+  /\ nth 6 (c_tr (fst (ex_run (UUpload ex_cal (Safe 5) 9 [])))) (Mkdir [], false) = (FsyncD ex_cal, true).
+Proof. vm_compute. repeat split. Qed.
